@@ -125,6 +125,10 @@ def build(case):
         npix += n
         outs += [(kind, unit, len(outs) + i) for i, (kind, unit) in enumerate(o)]
         outs = [(kind, unit, i) for i, (kind, unit, _) in enumerate(outs)]
+    if case.get("pixperm"):
+        # the blocks fed from pixel axes that are not next to each other: pixel axis i of the WCS goes to block input pixperm[i]
+        inv_ = [case["pixperm"].index(k) for k in range(npix)]
+        t = models.Mapping(tuple(inv_)) | t
     nw = len(outs)
     perm = case.get("perm") or list(range(nw))      # world axis j of the WCS = block output perm[j]
     if perm != list(range(nw)):
@@ -561,6 +565,12 @@ def gen(rng, tier):
                 blocks, npx, nw = [dict(skyb, dist=rng.choice([1.0, 2.0])), {"kind": "spec", "c": cc}], 3, 3
             case = {"blocks": blocks, "method": "mixed"}
             crossed = True      # (keeps the world axes in their natural order)
+        if it % 20 == 13:
+            # a coupled pair fed from pixel axes 0 and 2, a separate axis on pixel axis 1 between them
+            cc = [float(rng.randint(1, 9)), rng.choice([0.5, 0.25, 1.5]), rng.choice([0.03125, 0.0625, 0.125])]
+            blocks, npx, nw = [{"kind": "pair", "c": cc}, {"kind": rng.choice(["spec", "time"]), "c": cc}], 3, 3
+            case = {"blocks": blocks, "method": "mixed", "pixperm": [0, 2, 1], "perm": [0, 2, 1]}
+            crossed = True
         if it % 20 == 7:
             # four pixel axes coupled in a chain, in one of the orders the sets can be met in
             blocks, npx, nw = [{"kind": "chain4", "c": [float(rng.randint(1, 9)), rng.choice([0.5, 0.25, 1.5]), rng.choice([0.03125, 0.0625, 0.125])]}], 4, 4
